@@ -66,10 +66,11 @@ def expected_registers(addr, count):
     return [t[addr + k] for k in range(count)]
 
 
-def one_schedule(kind, nthreads, ntx, chooser, preconnect, wrap_lock=True, variant='plain'):
-    """variant: plain | units (every thread talks to its own unit id) | retry (retry options on, some first replies come from a foreign unit)
+def one_schedule(kind, nthreads, ntx, chooser, preconnect, wrap_lock=True, variant='plain', foreign=False):
+    """variant: plain | foreign (plain, the caller threads are not threading.Thread objects) | units (every thread talks to its own unit id) | retry (retry options on, some first replies come from a foreign unit)
     | broadcast (broadcast_enable on; every second thread sends unit-0 writes that nobody answers)"""
     framing = IO.framing_of(kind)
+    foreign = foreign or variant == 'foreign'      # callers that the threading module does not know (started with _thread.start_new_thread)
     sched = Sched(chooser)
     peer = LatencyPeer(framing, timeout=1.0)
     peer.foreign_first = (variant == 'retry')
@@ -95,7 +96,7 @@ def one_schedule(kind, nthreads, ntx, chooser, preconnect, wrap_lock=True, varia
             wrap_locks(sched, client, client.transaction, client.framer)
         for i in range(nthreads):
             def work(i=i):
-                name = threading.current_thread().name
+                name = 'T%d' % i
                 for j in range(ntx):
                     addr, cnt = 1000 + i * 100 + j, 1 + (i + j) % 3
                     env.trace.append((name, 'call', addr, round(env.clock.now, 6)))
@@ -112,7 +113,7 @@ def one_schedule(kind, nthreads, ntx, chooser, preconnect, wrap_lock=True, varia
                     except Exception as e:  # noqa
                         results[(i, j)] = (addr, cnt, None, 'RAISED %r' % (e,))
                     env.trace.append((name, 'return', addr, round(env.clock.now, 6)))
-            sched.spawn('T%d' % i, work)
+            sched.spawn('T%d' % i, work, foreign=foreign)
         status = sched.run(quiet=0.2)
     return {'status': status, 'unknown_lock_blocks': getattr(sched, 'unknown_lock_blocks', 0), 'results': results, 'trace': list(env.trace), 'choices': list(sched.choices), 'conns': env.conns,
             'framing': framing, 'lock_acquisitions': wrapper.acquisitions if wrapper else None, 'lock_present': lock_present}
@@ -249,12 +250,12 @@ def run(run):
                 ('rtu', 4, 2, True, 0, 2000), ('tcp', 2, 1, False, 2000, 0), ('tcp', 2, 2, False, 3000, 500), ('rtu', 2, 1, False, 1000, 200)]
     plan = [p + ('plain',) for p in plan]
     if run.thorough:
-        plan = [('tcp', 2, 2, True, 3000, 1000, 'fault'), ('tcp', 3, 1, True, 2000, 500, 'fault'), ('rtu', 2, 2, True, 1500, 500, 'fault'), ('tcp', 3, 2, True, 0, 1500, 'fault'),
+        plan = [('tcp', 2, 2, True, 3000, 500, 'foreign'), ('tcp', 3, 1, True, 2000, 0, 'foreign'), ('rtu', 2, 2, True, 1000, 300, 'foreign'), ('tcp', 2, 2, True, 3000, 1000, 'fault'), ('tcp', 3, 1, True, 2000, 500, 'fault'), ('rtu', 2, 2, True, 1500, 500, 'fault'), ('tcp', 3, 2, True, 0, 1500, 'fault'),
                 ('rtu', 2, 2, True, 2000, 500, 'broadcast'), ('ascii', 2, 2, True, 2000, 500, 'broadcast'), ('tcp', 3, 1, True, 3000, 500, 'broadcast'),
                 ('binary', 3, 1, True, 1000, 500, 'broadcast'), ('tcp', 2, 2, True, 3000, 500, 'units'), ('tcp', 3, 1, True, 3000, 0, 'units'), ('rtu', 2, 2, True, 1000, 500, 'units'),
                  ('tcp', 2, 2, True, 3000, 1000, 'retry'), ('tcp', 3, 1, True, 2000, 500, 'retry'), ('rtu', 2, 1, True, 1500, 300, 'retry')] + plan
     else:
-        plan = [('tcp', 2, 2, True, 120, 60, 'fault'), ('tcp', 3, 1, True, 60, 40, 'fault'), ('rtu', 2, 2, True, 60, 40, 'fault'),
+        plan = [('tcp', 2, 2, True, 120, 40, 'foreign'), ('rtu', 2, 1, True, 60, 0, 'foreign'), ('tcp', 2, 2, True, 120, 60, 'fault'), ('tcp', 3, 1, True, 60, 40, 'fault'), ('rtu', 2, 2, True, 60, 40, 'fault'),
                 ('rtu', 2, 1, True, 80, 30, 'broadcast'), ('ascii', 2, 2, True, 60, 60, 'broadcast'), ('tcp', 3, 1, True, 80, 40, 'broadcast'),
                 ('tcp', 2, 2, True, 150, 50, 'units'), ('tcp', 3, 1, True, 100, 0, 'units'), ('rtu', 2, 1, True, 80, 0, 'units'),
                  ('tcp', 2, 2, True, 150, 80, 'retry'), ('tcp', 3, 1, True, 100, 50, 'retry'), ('rtu', 2, 1, True, 80, 30, 'retry')] + plan
